@@ -23,12 +23,18 @@ def run(tier):
     q = tier == "quick"
     plan = [("c06_ref", 80000 if q else 800000, 100), ("c06_keys", 10000 if q else 100000, 30)]
     rcrun.run_rc(ev, b, plan, finding_key)
+    if tier == "thorough":
+        import huge
+        huge.run(ev, [("huge_siv", 3, 2), ("huge_isap", 3, 2)])
     return finish(ev)
 
 
 def replay(path):
     import json
     cfgname = json.load(open(path))["config"]
+    if cfgname.endswith("+huge"):
+        import huge
+        return rcrun.replay_file(PROP, path, lambda cfg: huge.replay_bin(cfg))
     allc = {c.name: c for c in c01.cfgs("thorough") + c01.cfgs("quick")}
     b = dict(hb.harness_bins("aead", "aead.cpp", [allc[cfgname]], tape="words"))
     return rcrun.replay_file(PROP, path, lambda cfg: b[cfg])
